@@ -52,6 +52,24 @@ static inline size_t bs_at(size_t i, size_t n)
   __CPROVER_assert(i < n, "[C11] foreign exception std::out_of_range (.at) unreachable");
   return i;
 }
+static inline _Bool bs_same_container(size_t g1, size_t g2)
+{
+  __CPROVER_assert(g1 == g2, "[C09] iterators into the same container are compared");
+  return 1;
+}
+static inline size_t bs_it_inc(size_t pos, size_t n)
+{
+  __CPROVER_assert(pos < n, "[C09] an iterator that is incremented is not the end iterator");
+  return pos + 1;
+}
+#ifndef BS_NH
+#define BS_NH 2UL
+#endif
+static inline size_t bs_hid(size_t id)
+{
+  __CPROVER_assert(id < BS_NH, "[C09] iterator refers to a live vector");
+  return id;
+}
 static inline size_t bs_gid(size_t id)
 {
   __CPROVER_assert(id < BS_NG, "[C09] iterator or pointer refers to a live grid vector");
